@@ -670,6 +670,27 @@ func L2() []Labeled {
 			}
 		}
 	}
+	// several methods in ONE path block, with and without query parameters, in every order of three methods, and
+	// a method of the enclosing block after a nested block
+	{
+		mk := func(method string, q []QueryParam, sibling bool, path ...PathSeg) *Endpoint {
+			return &Endpoint{Kind: "rest", Method: method, Path: path, Query: q, Sibling: sibling, Stmts: []*Stmt{{Kind: "action", Text: "x"}}}
+		}
+		qs := map[string][]QueryParam{
+			"GET":    {{Name: "limit", T: prim("int")}, {Name: "offset", T: TypeExpr{Prim: "int", Opt: true}}},
+			"POST":   nil,
+			"DELETE": {{Name: "force", T: prim("bool")}},
+		}
+		for pi, perm := range Permutations(3) {
+			ms := []string{"GET", "POST", "DELETE"}
+			var eps []*Endpoint
+			for k, x := range perm {
+				m := ms[x]
+				eps = append(eps, mk(m, qs[m], k > 0, PathSeg{Static: "orders"}))
+			}
+			out = append(out, Labeled{fmt.Sprintf("L2/siblings/%d", pi), &Spec{Apps: append([]*App{{Name: []string{"A"}, Eps: eps}}, supportApps()...)}})
+		}
+	}
 	// publisher / subscriber declaration orders: the event with a statement body, one or two subscribers,
 	// each before or after the publisher
 	{
